@@ -161,6 +161,7 @@ def mutant_dirs():
 
 def mutants(seed, args):
     matrix = "--matrix" in args
+    light = "--light" in args  # cross checks (not the expected ones) at a tenth of the quick budget
     names = [a for a in args if not a.startswith("--")]
     failures = 0
     rows = []
@@ -188,7 +189,10 @@ def mutants(seed, args):
                 # a property-preserving change: nothing may fire
                 row = {"mutant": name, "property": meta["property"], "results": {}, "silent": True}
                 for pid in (CLAIMED if matrix else expect):
-                    rc, kinds, tail = _run_check(pid, root)
+                    runs = None
+                    if light and pid not in expect:
+                        runs = max(1500, engine.get_property(pid).budget["quick"]["runs"] // 10)
+                    rc, kinds, tail = _run_check(pid, root, runs)
                     row["results"][pid] = rc
                     if rc != 0:
                         failures += 1
@@ -200,7 +204,10 @@ def mutants(seed, args):
                 continue
             row = {"mutant": name, "property": meta["property"], "results": {}}
             for pid in (CLAIMED if matrix else expect):
-                rc, kinds, tail = _run_check(pid, root)
+                runs = None
+                if light and pid not in expect:
+                    runs = max(1500, engine.get_property(pid).budget["quick"]["runs"] // 10)
+                rc, kinds, tail = _run_check(pid, root, runs)
                 row["results"][pid] = rc
                 if pid in expect:
                     if rc != 1:
